@@ -170,6 +170,9 @@ def gen_cases(ctx):
             pres = schedule(rng, nst, ["late", "always", "gap", "late"][(q + k) % 4])
             if pres:
                 lay["present"] = pres
+                # every other late-release layout is driven through the real Model (main loop, release module)
+                if 1 in pres and pres == [0] * pres.index(1) + [1] * (len(pres) - pres.index(1)) and (q + k) % 2 == 0:
+                    lay["via_model"] = True
         out.append(fam)
     if not ctx.quick:
         for k, fam in enumerate(out):
@@ -239,7 +242,7 @@ def nontrivial_key(lay, scalar):
 
 
 def run_one(d, lay, scalar, exact, files_ready=False):
-    got = trace(d, lay, scalar, files_ready)
+    got = trace_via_model(d, lay, scalar, files_ready) if lay.get("via_model") else trace(d, lay, scalar, files_ready)
     tol = 0.0 if exact else 1e-9
     return got, compare(lay, scalar, got, tol)
 
@@ -298,6 +301,47 @@ def trace(d, lay, scalar, files_ready):
             force.close()
         except Exception:  # noqa: BLE001
             pass
+    return out
+
+
+def trace_via_model(d, lay, scalar, files_ready):
+    """the same observations through the REAL ladim.model.Model (configuration dictionary, built-in grid / forcing /
+    release / tracker / output modules, the main loop's `model.update()`): the first particle is released at the
+    first step of the schedule that has one (schedules 0..0 1..1 only), no advection, so that the steps before it run
+    with an empty state exactly as a simulation with a late first release does"""
+    import run_ladim as rl
+    import romsfiles as rf
+
+    names = sorted(d.glob("forcing_*.nc")) if files_ready else c3.write_layout(d, lay)
+    present = lay["present"]
+    first = present.index(1)
+    sg = -1 if lay["reversed"] else 1
+    rf.write_release(d / "late.rls", [[lay["start"] + sg * first * lay["dt"], 2.25, 2.5, 10.0]])
+    conf = rf.base_config(start=lay["start"], stop=lay["stop"], dt=lay["dt"], forcing_file=d / "forcing_*.nc", grid_file=names[0],
+                          release_file=d / "late.rls", out_file=d / "model_out.nc", advection="", time_reversal=bool(lay["reversed"]),
+                          instance_variables=("pid", "X", "Y", "Z") + (("temp",) if scalar else ()))
+    if scalar:
+        conf["state"] = {"instance_variables": {"temp": "float"}, "default_values": {"temp": 0.0}}
+        conf["forcing"]["extra_forcing"] = ["temp"]
+    out = []
+
+    def per_step(model, n):
+        st, force = model.state, model.force
+        if len(st) == 0:
+            out.append({"step": n, "absent": True})
+            return
+        row = {"step": n, "u": [], "v": []}
+        for f in FRACTIONS:
+            U, V = force.velocity(st.X, st.Y, st.Z, fractional_step=f)
+            row["u"].append(float(U[0]))
+            row["v"].append(float(V[0]))
+        row["uvar"] = float(force.variables["u"][0])
+        if scalar:
+            row["temp"] = float(force.variables["temp"][0])
+        out.append(row)
+
+    rl.run_conf(conf, per_step=per_step)
+    (d / "model_out.nc").unlink(missing_ok=True)
     return out
 
 
